@@ -216,6 +216,18 @@ class CaseRun:
         kind = op[0]
         self.tags[kind] += 1
         what = " ".join(map(str, op))
+        mem0, ext0 = self.mem(), self.extents()
+        # the only previously live region the operation may change: the node it is applied to (write through a reference: the referent)
+        may = set()
+        try:
+            if kind in ("bindobj", "bindnull", "bindval", "setscal", "upd"):
+                may.add(int(self.handles[op[1]][0]._offset))
+            elif kind == "setvia":
+                t0 = self.C.get(self.handles[op[1]][0], self.handles[op[1]][1], op[2])
+                if t0 is not None:
+                    may.add(int(t0._offset))
+        except Exception:
+            pass
         try:
             if kind == "new":
                 _, ci, vs = op
@@ -338,6 +350,12 @@ class CaseRun:
                 self.expect.append(f"err {type(e).__name__}")
             self.failure(f"raises:{kind}:{type(e).__name__}", f"{what}: {type(e).__name__}: {str(e)[:200]}")
             return False
+        mem1 = self.mem()
+        for (o, n) in ext0:
+            if o not in may and mem1[o:o + n] != mem0[o:o + n]:
+                self.failure("writes-outside", f"{what}: the live region ({o},{n}) - not the object operated on, not newly created - changed",
+                             prop="C03")
+                break
         self.check_refs(what)
         return not self.fail
 
